@@ -610,6 +610,10 @@ def model_requests(d, x, probe):
         reqs.append("rd.expr R %s mul 3" % w); exp.append(run(lambda: d * 3, rd_wire))
     if abs(d.days) < 2 ** 53:
         reqs.append("rd.weeks " + w); exp.append("ok %d" % d.weeks)
+    if max(abs(getattr(d, k)) for k in REL) * 3 < 2 ** 53:
+        reqs.append("rd.normalized " + w); exp.append(run(lambda: d.normalized(), rd_wire))
+        reqs.append("rd.muldy %s 3 1" % w); exp.append(run(lambda: d * 1.5, rd_wire))
+        reqs.append("rd.divp2 %s 1 2" % w); exp.append(run(lambda: d / -4, rd_wire))
     return reqs, exp
 
 
